@@ -380,6 +380,68 @@ class CharMapFamily(Family):
             return ['len(c.otherIntervals) <= %d' % self.MAXN]
         return []
 
+    @classmethod
+    def bounded_source(cls, prog, fname):
+        src = '''package utilities
+
+import "testing"
+
+// C17 (bounded): every sequence of up to 3 operations - AddInterval with both endpoints from the boundary set of the statement
+// and a reference A, B or none, AddDefaultInterval, Clear - with lookups of every boundary character and its neighbours after
+// every step, in ascending and then in descending order (so that anything a lookup leaves behind is exercised), against
+// "the most recent registration whose range contains the character".
+type bop struct { kind int; s, e rune; ref string }   // kind 0 AddInterval, 1 AddDefaultInterval, 2 Clear
+
+func TestVerifReplay(t *testing.T) {
+	ends := []rune{0, 'a', 0xFF, 0x100, 0x101, 0x2000, 0xFFFE}
+	var ops []bop
+	for i, a := range ends { for _, b := range ends[i:] { for _, r := range []string{"A", "B", ""} { ops = append(ops, bop{0, a, b, r}) } } }
+	for _, r := range []string{"A", "B", ""} { ops = append(ops, bop{1, 0, 0xFFFE, r}) }
+	ops = append(ops, bop{2, 0, 0, ""})
+	var probes []rune
+	for _, e := range ends { for _, d := range []rune{-1, 0, 1} { if e+d >= 0 { probes = append(probes, e+d) } } }
+	oracle := func(hist []bop, ch rune) any {
+		for i := len(hist) - 1; i >= 0; i-- {
+			h := hist[i]
+			if h.kind == 2 { return nil }
+			if h.s <= ch && ch <= h.e { if h.ref == "" { return nil }; return h.ref }
+		}
+		return nil
+	}
+	bad := 0
+	var run func(m *CharReferenceMap, hist []bop, depth int)
+	check := func(m *CharReferenceMap, hist []bop) {
+		for pass := 0; pass < 2; pass++ {
+			for k := range probes {
+				ch := probes[k]
+				if pass == 1 { ch = probes[len(probes)-1-k] }
+				if got, want := m.Lookup(ch), oracle(hist, ch); got != want { t.Errorf("after %v: Lookup(%#x) = %v, the most recent covering registration gives %v", hist, ch, got, want); bad++; if bad > 5 { t.FailNow() } }
+			}
+		}
+	}
+	run = func(m *CharReferenceMap, hist []bop, depth int) {
+		if depth == 0 { return }
+		for _, o := range ops {
+			// replay the history on a fresh map (the map has no copy operation), then apply the next operation
+			m2 := NewCharReferenceMap()
+			h2 := append(append([]bop{}, hist...), o)
+			for i, h := range h2 {
+				switch h.kind {
+				case 0: if h.ref == "" { m2.AddInterval(h.s, h.e, nil) } else { m2.AddInterval(h.s, h.e, h.ref) }
+				case 1: if h.ref == "" { m2.AddDefaultInterval(nil) } else { m2.AddDefaultInterval(h.ref) }
+				case 2: m2.Clear()
+				}
+				check(m2, h2[:i+1])
+			}
+			run(m2, h2, depth-1)
+		}
+	}
+	run(NewCharReferenceMap(), nil, 3)
+}
+'''
+        return 'tokenizers/utilities', src, ('all sequences of up to 3 registrations / clears with endpoints from {0, a, U+00FF, U+0100, U+0101, U+2000, U+FFFE} and references A, B, none; '
+                                             'lookups of every boundary character and its neighbours after every step, in both directions')
+
     def test_source(self, vals):
         n = vals.get('n', 0)
         if not isinstance(n, int) or n < 0 or n > self.MAXN:
@@ -1725,7 +1787,19 @@ func varSets() []func() *variables.VariableCollection {
 		}
 	}
 	arr := variants.VariantFromArray([]*variants.Variant{variants.VariantFromInteger(1), variants.VariantFromString("x")})
+	// "null" said the Go way - no variant at all - and an array grown by an indexed write past its end
+	gaps := func() *variables.VariableCollection {
+		vc := variables.NewVariableCollection()
+		a := variables.NewVariable("a", variants.VariantFromInteger(1))
+		a.SetValue(nil)
+		vc.Add(a)
+		g := variants.VariantFromArray(nil)
+		g.SetByIndex(2, variants.VariantFromInteger(5))
+		vc.Add(variables.NewVariable("b", g))
+		return vc
+	}
 	return []func() *variables.VariableCollection{
+		gaps,
 		mk(variants.VariantFromInteger(3), arr),
 		mk(variants.EmptyVariant(), variants.VariantFromDouble(2.5)),
 		mk(variants.VariantFromString("s"), variants.VariantFromBoolean(true)),
@@ -2323,7 +2397,7 @@ var alphabet = []lex{
 	{"{{#if D}}", 's', "D"}, {"{{/if}}", 'x', ""}, {"{{#unless a}}", 'i', "a"}, {"{{/unless}}", 'x', ""},
 	{"{{{#a}}}", 's', "a"}, {"{{/}}", '?', ""}, {"{{a}}}", '?', ""}, {"{{", '?', ""},
 	// a comment's body is free text (apostrophes, quotes, braces that do not close it); its brace counts must match too
-	{"{{! don't \"{ }x }}", 'c', ""}, {"{{{!it's}}}", 'c', ""}, {"{{! n }}}", '?', ""}, {"{{{! n }}", '?', ""},
+	{"{{! don't \"{ }x }}", 'c', ""}, {"{{{!it's}}}", 'c', ""}, {"{{ ! it's }}", 'c', ""}, {"{{! n }}}", '?', ""}, {"{{{! n }}", '?', ""},
 }
 
 func parse(ls []lex, pos *int, open string, top bool) ([]*node, bool) {
@@ -2404,6 +2478,11 @@ func TestVerifReplay(t *testing.T) {
 		if !wellFormed && err == nil { t.Errorf("%q is malformed but was accepted", tpl); bad++; continue }
 		if err != nil { continue }
 		accepted++
+		// the template's own default variables get values: an explicit map - also an empty one - is still what is rendered,
+		// and a nil map (Evaluate) means the defaults
+		defaults := m.DefaultVariables()
+		for k := range defaults { defaults[k] = "D" + k }
+		if got, e2 := m.Evaluate(); e2 != nil || got != render(tree, defaults) { t.Errorf("%q with its default variables rendered %q, %v; the reference renders %q", tpl, got, e2, render(tree, defaults)); bad++ }
 		for mi, vars := range maps {
 			before := len(vars)
 			want := render(tree, vars)
@@ -2435,7 +2514,7 @@ class MustacheFamily(Family):
 
     @classmethod
     def bounded_source(cls, prog, fname):
-        return 'mustache', cls.source(), ('all sequences of up to 4 template lexemes over a 21-lexeme alphabet (text, variables, escaped variables, comments with free text, sections in '
+        return 'mustache', cls.source(), ('all sequences of up to 4 template lexemes over a 22-lexeme alphabet (text, variables, escaped variables, comments with free text, sections in '
                                           'every spelling, section ends by name and anonymous, five malformed tags) x 4 variable maps (one with keys that differ only in letter case), each rendered three times, against a reference recogniser and renderer')
 
 
@@ -2506,6 +2585,18 @@ func TestVerifReplay(t *testing.T) {
 			for q := 1; q <= 2; q++ {
 				if a, b := drain(mk(), x, 0), drain(mk(), x, q); a != b { t.Errorf("%s tokenizer: %q read with %d has-next queries per token gives %s, without %s", name, x, q, b, a); bad++ }
 			}
+		}
+	}
+	// a scanner that is reset and set again is a new input like any other
+	for name, mk := range makers {
+		for _, x := range append(append([]string{}, pool...), "Hello, {{ Name", "{{! c", "a {{#b") {
+			tk := mk()
+			sc := io.NewStringScanner(x)
+			a := show(tk.TokenizeStream(sc))
+			sc.Reset()
+			b := show(tk.TokenizeStream(sc))
+			if a != b { t.Errorf("%s tokenizer: %q read through one scanner gives %s, after Reset() and a second TokenizeStream %s", name, x, a, b); bad++ }
+			if w := show(mk().TokenizeBuffer(x)); a != w { t.Errorf("%s tokenizer: %q through TokenizeStream gives %s, through TokenizeBuffer %s", name, x, a, w); bad++ }
 		}
 	}
 	// separate instances share nothing: reconfiguring one (a new symbol, a new word character, no word characters at all)
@@ -2681,7 +2772,7 @@ import (
 func TestVerifReplay(t *testing.T) {
 	fields := []string{"", "a", "x y", "яé", "a,b", "q\"r", "\"", "\"\"", "l\r\nm", ";", "'", "\t", "a'b", ",\"\n"}
 	type cfg struct { seps []rune; quotes []rune }
-	cfgs := []cfg{{[]rune{','}, []rune{'"'}}, {[]rune{'\t'}, []rune{'"', '\''}}, {[]rune{';', ','}, []rune{'\''}}, {[]rune{','}, []rune{'"'}}}
+	cfgs := []cfg{{[]rune{','}, []rune{'"'}}, {[]rune{'\t'}, []rune{'"', '\''}}, {[]rune{';', ','}, []rune{'\''}}, {[]rune{0x3001, 0xFF1B}, []rune{0x300D, '"'}}}
 	eols := []string{"\n", "\r", "\r\n", "\n\r"}
 	bad := 0
 	for ci, cf := range cfgs {
@@ -2700,6 +2791,10 @@ func TestVerifReplay(t *testing.T) {
 			for _, a := range fields { tables = append(tables, [][]string{{a}}) }
 			for _, a := range fields { for _, b := range fields { tables = append(tables, [][]string{{a, b}}, [][]string{{a}, {b}}) } }
 			for i := 0; i < len(fields); i++ { for j := 0; j < len(fields); j += 3 { tables = append(tables, [][]string{{fields[i], fields[j]}, {fields[(i+j)%len(fields)], fields[(i*j)%len(fields)]}}) } }
+			// blank lines are rows too: single-column tables of three and four rows with empty fields between, before and after others
+			for _, a := range []string{"", "x", fields[len(fields)-1]} { for _, b := range []string{"", "y"} { for _, c3 := range []string{"", "z"} {
+				tables = append(tables, [][]string{{a}, {b}, {c3}}, [][]string{{a}, {b}, {""}, {c3}})
+			} } }
 			for _, tbl := range tables {
 				for _, always := range []bool{false, true} {
 					var sb strings.Builder
@@ -2758,7 +2853,7 @@ class CsvFamily(Family):
     @classmethod
     def bounded_source(cls, prog, fname):
         return 'csv', cls.source(), ('all tables of up to 2x2 fields over a 14-string pool (empty, blanks, non-Latin, separators, quotes, doubled quotes, line breaks) x 4 separator/quote '
-                                     'configurations x 4 line endings, written raw-when-possible and always-quoted, read back with decoding on')
+                                     'configurations (one with non-Latin separators and quote) x 4 line endings, single-column tables with blank lines, written raw-when-possible and always-quoted, read back with decoding on')
 
 
 TREE_TEST = r'''package test_calculator
